@@ -323,8 +323,13 @@ def run_check(prop, tier, spec, nworkers=None, runs=None, budget_s=None, quiet=F
                 harness_problems.append("replay of %s in a fresh interpreter did not reproduce: %s" % (path, out[-300:]))
                 continue
             new_violations.append((k, path, msg, len(viol_by_key[k])))
-        for k in unknown_keys[len(todo):]:
-            new_violations.append((k, None, "(not minimised, see first %d classes)" % len(todo), len(viol_by_key[k])))
+        # further classes are only listed next to at least one *confirmed* (replayed) violation; if nothing
+        # reproduced, everything seen was a transient disturbance of the harness, not a verdict
+        if new_violations:
+            for k in unknown_keys[len(todo):]:
+                new_violations.append((k, None, "(not minimised, see first %d classes)" % len(todo), len(viol_by_key[k])))
+        elif unknown_keys[len(todo):]:
+            harness_problems.append("%d further violation classes were seen but none of the first %d reproduced: %r" % (len(unknown_keys) - len(todo), len(todo), unknown_keys[len(todo):][:5]))
 
     wall = time.monotonic() - t0
     if agg["recheck_mismatch"]:
